@@ -1115,6 +1115,9 @@ def m_timedelta_seconds(I, st, c, args, body, t):
 
 def m_datetime_add(I, st, c, args, body, t):
     a, b = deref(I, st, args[0]), deref(I, st, args[1])
+    if c.get("name") == "sub" and isinstance(a, OpaqueV) and isinstance(b, OpaqueV) and "DateTime" in a.ty and "DateTime" in b.ty:
+        # DateTime - DateTime = signed_duration_since: always representable, never panics
+        return st, OpaqueV("chrono::TimeDelta", ("sds", getattr(a, "term", None), getattr(b, "term", None)), deps_of(a) | deps_of(b))
     # DateTime + TimeDelta panics on overflow of the representable range
     small = isinstance(b, OpaqueV) and b.term and b.term[0] == "seconds" and isinstance(b.term[1], int) and abs(b.term[1]) < (1 << 40)
     I.call_obligation(body, t, "DateTime + TimeDelta in range", bool(small), repr(b))
